@@ -1,4 +1,4 @@
-import LunarVerif.Proofs.C05Ref
+import LunarVerif.Proofs.C05Quota
 /-!
 # C05 — every configuration the loader accepts runs safely on all traffic
 
@@ -148,12 +148,28 @@ example : load wCfgRho = .reject "refcycle" := by decide
 example : RefChain wCfgRho.flows .res (wRhoEntry.conns .res) ["LoopA", "LoopB", "LoopA"] :=
   ⟨by decide, _, rfl, by decide, _, rfl, by decide, _, rfl, trivial⟩
 
-/-- **load_terminates.**  The loader ends with accept or reject for EVERY configuration directory. -/
+/-- **parent_walk_terminates.**  On every quota tree the loader builds (`treeOf`: ids may repeat — the same id at
+    several depths of a branch, on sibling branches, a limit below itself) the loop `for parentQuotaID != ""` of
+    `Stream.addParentsQuotaReferences` ends, from whatever id it starts: `GetNode` answers the FIRST match, which
+    is never inserted later than the actual parent node, so the insertion index of the resolved node strictly
+    decreases.  Fuel `#nodes + 1` is never exhausted. -/
+theorem parent_walk_terminates (q : QEntry) (ils : List QEntry) (t : List QNode) (h : treeOf q ils = some t)
+    (id : String) : refWalkOk t id = true ∧ ∀ i j, walkStep t i = some j → j < i :=
+  ⟨refWalkOk_true (treeOf_wf h) id, fun _ _ hs => walkStep_lt (treeOf_wf h) hs⟩
+
+/-- regression for the seeded change C05-s8: `c1` declared again below itself; the walk from `c1` ends at the quota -/
+example : treeOf { id := "q1" } [{ id := "c1", parent := some "q1" }, { id := "c1", parent := some "c1" }] =
+    some [⟨"q1", none⟩, ⟨"c1", some 0⟩, ⟨"c1", some 1⟩] := by decide
+example : walkStep [⟨"q1", none⟩, ⟨"c1", some 0⟩, ⟨"c1", some 1⟩] 2 = some 1 := by decide
+
+/-- **load_terminates.**  The loader ends with accept or reject for EVERY configuration directory: neither the
+    builder's recursion nor the parent-quota walk can run for ever. -/
 theorem load_terminates (c : Cfg) : (∃ fls, load c = .accept fls) ∨ (∃ cls, load c = .reject cls) := by
   cases h : load c with
   | accept fls => exact Or.inl ⟨fls, rfl⟩
   | reject cls => exact Or.inr ⟨cls, rfl⟩
   | crash => exact absurd h (load_no_crash c)
+  | hang => exact absurd h (load_no_hang c)
 
 /-- regression examples: the former witnesses of F05a, F05b, F05c are refused with an error … -/
 example : load wCfgA = .reject "cycle" := by decide
@@ -197,6 +213,7 @@ theorem judge_holds_of_model (c : Cfg) (txns : List (Oracle × Dir)) : holds c (
     intro t _
     simp [Function.comp, modelTxnObs, hl]
   | crash => exact absurd hl (load_no_crash c)
+  | hang => exact absurd hl (load_no_hang c)
 
 /-- non-vacuity: an accepted configuration whose request transaction executes three processors
     (`A → {B, C}`), within the bound -/
